@@ -11,6 +11,7 @@ CONSTANTS
  DevIgnoreCompleteErr = FALSE
  DevNegAck = FALSE
  DevEmptyAck = FALSE
+ DevDupParts = FALSE
 INIT TInit
 NEXT TNext
 POSTCONDITION Reached
